@@ -11,7 +11,7 @@ REPLAY_BOUNDS = {
     'lru': 'Lru<u32,u32> with initial capacity 2 or 4: 3000 seeded random insert/get sequences (up to 64 operations, up to 15 keys, colliding hashes, frequent overwrites, final read-back)',
     'ff': 'FiniteField over all 7 exported primes: 12 residues (0,1,2,3,P/2,P/2+1,P-2,P-1 and 4 seeded random) in all pairs (x3 third operands for the ternary laws), 9 operations/laws',
     'lattice': 'RealSemiring on a 9-value grid (signed zeros, infinities), ExpectedUtility on an 8-pair grid incl. incomparable pairs, all triples; Boolean semiring exhaustively; RationalSemiring on the naturals 0..4 built from one()/zero() (all triples); value grids incl. integers around 2^52 / 2^53 for sub-inverts-add with an exactness test in 128-bit integers; Complex on a 9-value grid incl. magnitudes 2^53 (identities, annihilation, commutativity on all; associativity / distributivity on small integers)',
-    'dnnf': 'top-down compilation + conditioning with BOTH node stores (StandardDecisionNNFBuilder, SemanticDecisionNNFBuilder<U64_LARGEST>): 11 CNFs over 3 variables (incl. unsatisfiable by propagation / by search, an empty clause, tautological and repeated literals) x 6 orders x {diagram, negation} x 3 labels x 2 values, plus ~300 seeded random CNFs over 4 variables and ~200 over 5-6 variables with 3-9 clauses, ~350 formulas of 2-5 four-literal clauses over 6 variables under random orders, formulas that are unsatisfiable only by search with unit clauses present, 40 batches of 60 formulas over 3-5 variables compiled one after the other in ONE builder per node store (standard, semantic U64_LARGEST, semantic U32_SMALL), each conditioned -- diagram and negation -- on every literal, and two random 3-CNFs with 40 variables / 70 clauses (~10^5 component-cache states; checked by SAMPLING: 20000 random assignments and guided walks); checks: models = CNF models, false constant <=> unsatisfiable, no path decides a variable twice, condition = restriction; one random 3-CNF over 72 variables with 16 clauses and one over 12 variables with 70 clauses (more than 64 variables / clauses), checked by sampling',
+    'dnnf': 'top-down compilation + conditioning with BOTH node stores (StandardDecisionNNFBuilder, SemanticDecisionNNFBuilder<U64_LARGEST>): 11 CNFs over 3 variables (incl. unsatisfiable by propagation / by search, an empty clause, tautological and repeated literals) x 6 orders x {diagram, negation} x 3 labels x 2 values, plus ~300 seeded random CNFs over 4 variables and ~200 over 5-6 variables with 3-9 clauses, ~350 formulas of 2-5 four-literal clauses over 6 variables under random orders, formulas that are unsatisfiable only by search with unit clauses present, 40 batches of 60 formulas over 3-5 variables compiled one after the other in ONE builder per node store (standard, semantic U64_LARGEST), each conditioned -- diagram and negation -- on every literal, and two random 3-CNFs with 40 variables / 70 clauses (~10^5 component-cache states; checked by SAMPLING: 20000 random assignments and guided walks); checks: models = CNF models, false constant <=> unsatisfiable, no path decides a variable twice, condition = restriction; one random 3-CNF over 72 variables with 16 clauses and one over 12 variables with 70 clauses (more than 64 variables / clauses), checked by sampling',
     'cnf': 'Cnf::eval / is_sat_partial on 7 clause lists (incl. empty list, empty clause, duplicate and complementary literals) x all total and one-hole partial assignments of 3 variables, and every partial model over FOUR variables (81; a universe larger than the formula mentions) on 11 lists; 300 seeded random PartialModel set/unset sequences; Cnf::condition on the 7 lists x 6 literals and 300 seeded random CNFs over 4 variables (all assignments); Cnf::wmc in FiniteField<1000000007> on the 7 lists x 2 weight vectors and 300 random CNFs/weights against the explicit sum; VarSet union / union_with / minus / intersect_varset / difference / iter / len / is_empty against BTreeSet on 300 random pairs of sets over 0..9; PartialModel from_assignments / from_litvec / from_total_model / assignment_iter / difference on 300 random pairs of partial assignments of 5 variables; size-threshold family: 12 formulas with clauses of 9-14 literals over 10-12 variables (condition on every literal, wmc), sets with labels up to 139, partial models over 70 variables',
     'order': 'VarOrder::new on every permutation of 0..4 variables, each extended 0-2 times with new_last; linear_order / force_order / min_fill_order on 202 CNFs over 1-6 variables and 10 over 66-70 variables: bijection between labels and levels',
     'compile': 'compile_cnf / collapse_clauses on 8 fixed clause lists x 6 orders and 600 seeded random CNFs; compile_logical_expr / compile_plan on 600 seeded random expressions of depth <= 4 over 3 variables; compile_cnf_with_assignments against compile-then-condition_model (same pointer) on 8 lists x 6 orders x 5 partial assignments and 600 random; BottomUpPlan::from_dtree(DTree::from_cnf) + compile_plan on 600 random CNFs; CompressionSddBuilder compile_cnf / compile_logical_expr / compile_plan under all 12 vtrees over 3 variables (8 fixed lists + 400 random CNFs and expressions) and 4 vtrees over 4 variables (100 random CNFs) and 5 vtrees over 5 variables (200 random CNFs and expressions), evaluated by a structural walk of the SDD; 40 formulas over 66-70 variables (labels beyond 64) for compile_cnf / plan from dtree / compile_cnf_with_assignments / SDD, evaluated on all assignments of the <= 10 mentioned variables; systematic SDD expressions o1(o2(l,l),l) and ite(l,o(l,l),l) over all literals of 3 variables in shared builders; SemanticSddBuilder<U64_LARGEST> compile_cnf on the same CNFs (its ite is an explicit todo!(), so no expressions / plans)',
